@@ -455,7 +455,9 @@ def fast_pareto_mask(df_values, goals, distinct=True):
             eff_data = eff_data.copy()
         for j, (_, sign) in enumerate(effective_cols):
             if sign != 1.0:
-                np.negative(eff_data[:, j], out=eff_data[:, j])
+                # Not np.negative(col, out=col): on a strided float32 column view that
+                # returns wrong values with some numpy builds.
+                eff_data[:, j] *= -1
     else:
         eff_data = np.empty((n, n_eff), dtype=eff_dtype)
         j = 0
